@@ -515,7 +515,8 @@ impl Prop for C04 {
         for local in ALL_TYPES {
             for peer in PEER_TYPES {
                 v.push(json!({"kind": "unit", "local": local, "peer": peer, "delivery": "whole", "seed": seed}));
-                if tier == Tier::Thorough {
+                {
+                    let _ = tier;
                     v.push(json!({"kind": "unit", "local": local, "peer": peer, "delivery": "byte-at-a-time", "seed": seed}));
                     v.push(json!({"kind": "unit", "local": local, "peer": peer, "delivery": "ready-split", "seed": seed}));
                 }
